@@ -464,17 +464,42 @@ impl JpegSpec {
 
     /// The JPEG XL codestream carrying the same coefficients (VarDCT, DCT8, YCbCr).
     pub fn write_codestream(&self, ans: bool) -> Vec<u8> {
+        self.write_codestream_opts(ans, false, 0)
+    }
+
+    /// `filters`: Gabor + EPF with default parameters; `epf_iters` overrides the iteration count when non-zero.
+    pub fn write_codestream_opts(&self, ans: bool, filters: bool, epf_iters: u32) -> Vec<u8> {
+        self.write_codestream_cropped(ans, filters, epf_iters, None, true)
+    }
+
+    /// As `write_codestream_opts`; with `canvas = Some((cw, ch, x0, y0))` the image is cw x ch and the
+    /// (single, last) frame is a cropped frame of this spec's size placed at (x0, y0).
+    pub fn write_codestream_cropped(&self, ans: bool, filters: bool, epf_iters: u32, canvas: Option<(u32, u32, i32, i32)>, ycbcr: bool) -> Vec<u8> {
         use crate::headers::*;
         let zz = zigzag();
         let (bw, bh) = (self.blocks_w(), self.blocks_h());
         let nb = bw * bh;
         assert!(self.w <= 256 && self.h <= 256, "single group only");
-        let mut img = ImageHeader::simple(self.w as u32, self.h as u32, false, 8);
+        let (cw, ch) = canvas.map(|c| (c.0, c.1)).unwrap_or((self.w as u32, self.h as u32));
+        let mut img = ImageHeader::simple(cw, ch, false, 8);
         img.modular_16bit_buffers = true;
         let mut fh = FrameHeader::modular_lossless(&img);
+        if let Some((_, _, x0, y0)) = canvas {
+            fh.have_crop = true;
+            fh.x0 = x0;
+            fh.y0 = y0;
+            fh.width = self.w as u32;
+            fh.height = self.h as u32;
+        }
         fh.encoding = ENC_VARDCT;
         fh.flags = FLAG_SKIP_ADAPTIVE_LF_SMOOTHING;
-        fh.do_ycbcr = true;
+        fh.do_ycbcr = ycbcr;
+        if filters {
+            fh.restoration_filter = RestorationFilter::default_();
+            if epf_iters != 0 {
+                fh.restoration_filter = RestorationFilter { gab: true, epf_iters, ..RestorationFilter::none() };
+            }
+        }
         let mut w = BitWriter::new();
         img.write(&mut w, &Sel::default());
         let mut out = w.finish();
